@@ -34,6 +34,7 @@ import (
 	"strings"
 	"testing"
 
+	sdkmath "cosmossdk.io/math"
 	"github.com/NibiruChain/collections"
 	"github.com/cosmos/cosmos-sdk/crypto/keys/ed25519"
 	"github.com/cosmos/cosmos-sdk/crypto/keys/secp256k1"
@@ -176,7 +177,13 @@ func newC11World(t *testing.T, in c11Input) *c11World {
 
 func (w *c11World) createValidator(ctx sdk.Context, i int) error {
 	amt := sdk.TokensFromConsensusPower(int64(10+i), sdk.DefaultPowerReduction)
-	_, err := w.sh.CreateValidator(ctx, okeeper.NewTestMsgCreateValidator(sdk.ValAddress(w.acc[i]), w.cons[i], amt))
+	zero := sdkmath.LegacyZeroDec()
+	msg, err := stakingtypes.NewMsgCreateValidator(sdk.ValAddress(w.acc[i]), w.cons[i], sdk.NewCoin("unibi", amt),
+		stakingtypes.Description{Moniker: fmt.Sprintf("c11-%d", i)}, stakingtypes.NewCommissionRates(zero, zero, zero), sdkmath.OneInt())
+	if err != nil {
+		return err
+	}
+	_, err = w.sh.CreateValidator(ctx, msg)
 	return err
 }
 
